@@ -469,7 +469,11 @@ def run_case(case, ctx):
                          "score_12": float(r_ab.score), "score_21": float(r_ba.score)}, p)
         # --- FDTW (order alternates with the case index so that both are driven)
         if case.get("idx", 0) % 2 == 0:
-            r_f = M.call(C.match, ta, tb, C.MODE_MATCHING_FDTW, pv, dim, False)
+            if case.get("idx", 0) % 4 == 0:
+                r_f = M.call(C.match, ta, tb, C.MODE_MATCHING_FDTW, pv, dim)        # the default verbose setting
+                cls.add("default_verbose_setting")
+            else:
+                r_f = M.call(C.match, ta, tb, C.MODE_MATCHING_FDTW, pv, dim, False)
             w, _ = _check_matching("match(FDTW)", r_f, D, p, opt, ctx, n1, n2)
             ref = r_ab
         else:
@@ -503,6 +507,21 @@ def run_case(case, ctx):
         if not _close(float(c), optf):
             return fail({"what": label + " is not the discrete Frechet distance", "got": float(c),
                          "expected": optf}, "inf")
+    if n1 >= 3:
+        # two pairs used in turn: ANOTHER first track with the same number of fixes and the same first and last fix
+        # (same default identifiers), other fixes in between, matched against the same second track
+        a2 = [list(a[0])] + [[q[0] + 1.5 + 0.25 * j, q[1] - 2.0, q[2] + 1.0] for j, q in enumerate(a[1:-1])] + [list(a[-1])]
+        ta2 = gen.make_track([tuple(q) for q in a2])
+        A2 = list(zip(ta2.getX(), ta2.getY(), ta2.getZ()))
+        D2 = [[_dist(A2[i], B[j], dim) for j in range(n2)] for i in range(n1)]
+        for p2 in (2, "inf"):
+            r2 = M.call(C.match, ta2, tb, C.MODE_MATCHING_DTW, _pval(p2), dim, False)
+            w, _ = _check_matching("match(DTW) of another first track with the same end fixes, after the first pair",
+                                   r2, D2, p2, dp_optimum(D2, p2), ctx, n1, n2)
+            if w:
+                w["other_first_track"] = a2
+                return fail(w, p2)
+        cls.add("another_track_with_the_same_end_fixes")
     # --- the documented plot option (Agg backend): drawing the cost matrix must not change what is reported
     if case.get("idx", 0) % 40 == 0:
         import matplotlib.pyplot as plt
@@ -584,7 +603,7 @@ def classify(case, witness):
 # floors for the call-history workloads added in session 3 (a run in which they were silently skipped is inconclusive)
 _floors_base = floors
 _FLOORS_EXTRA = {'classes': {'edited_in_place_history': 10000, 'rematch_history': 10000, 'plot_option': 300, 'after_requests_that_failed': 5000,
-                             'exponent_given_as_numpy_scalar': 5000, 'returned_matchings_modified_by_the_caller': 5000, 'tracks_of_hundreds_of_observations': 10}}
+                             'exponent_given_as_numpy_scalar': 5000, 'another_track_with_the_same_end_fixes': 5000, 'returned_matchings_modified_by_the_caller': 5000, 'tracks_of_hundreds_of_observations': 10}}
 
 
 def floors(tier):
